@@ -45,6 +45,27 @@ let show_binding ((k, n), d) =
   | KImport, Some v -> Printf.sprintf "%s%d=%s/%d" kc n tag v
   | _ -> Printf.sprintf "%s%d=%s" kc n tag
 
+(* for a Load that the model rejects with repeated_decl: is the definition it clashes with an
+   exported MIR FUNCTION (the case the property text names) or something else (external, resolver
+   address, data, proto)?  "*" marks the latter. *)
+let clash_mark st o =
+  match o with
+  | Load ds ->
+    (match build ds with
+     | Inl m ->
+       let ex = exported st.nloads m in
+       let rec go = function
+         | [] -> ""
+         | (n, DMod (_, _, KFunc)) :: rest ->
+           (match assoc st.env n with
+            | Some (DMod (_, _, KFunc)) -> ""
+            | Some _ -> "*"
+            | None -> go rest)
+         | _ :: rest -> go rest in
+       go ex
+     | Inr _ -> "")
+  | _ -> ""
+
 let run_history line =
   let ops = List.filter_map parse_op (String.split_on_char ';' line) in
   let b = Buffer.create 256 in
@@ -52,6 +73,7 @@ let run_history line =
   let first = ref true in
   (try
      List.iter (fun o ->
+         let before = !st in
          let (s', out) = step !st o in
          st := s';
          (match out with
@@ -61,6 +83,7 @@ let run_history line =
          first := false;
          match out with
          | OOk -> Buffer.add_string b "ok"
+         | OErr ERepeatedDecl -> Buffer.add_string b ("E:repeated_decl" ^ clash_mark before o)
          | OErr e -> Buffer.add_string b ("E:" ^ err_name e)
          | OLinked (_, res) ->
            Buffer.add_string b "ok res=[";
